@@ -385,8 +385,8 @@ func vpNewWorld(topo int, withProvider bool) *vpWorld {
 		podLocks: &vpKeyMutex{}, dpLocks: &vpKeyMutex{}}
 	_, w.ips, _ = floatingip.VTopology(topo)
 	w.store.Tick = w.tick
-	// n1 lies in 10.0.1.0/24 (listed by every topology), n2 in 10.0.2.0/24, n3 in no node subnet, n4 in the /32 subnet of topology 2
-	w.nodes = map[string]*corev1.Node{"n1": vpNode("n1", "10.0.1.5"), "n2": vpNode("n2", "10.0.2.5"), "n3": vpNode("n3", "10.0.9.9"), "n4": vpNode("n4", "10.0.3.3")}
+	// n1 and n5 lie in 10.0.1.0/24 (listed by every topology), n2 in 10.0.2.0/24, n3 in no node subnet, n4 in the /32 subnet of topology 2
+	w.nodes = map[string]*corev1.Node{"n1": vpNode("n1", "10.0.1.5"), "n2": vpNode("n2", "10.0.2.5"), "n3": vpNode("n3", "10.0.9.9"), "n4": vpNode("n4", "10.0.3.3"), "n5": vpNode("n5", "10.0.1.6")}
 	p := &FloatingIPPlugin{
 		nodeSubnet: map[string]*net.IPNet{},
 		IPAMContext: &ipamcontext.IPAMContext{Client: &vpKube{w: w}, PodLister: &vpPodLister{w: w},
@@ -402,6 +402,18 @@ func vpNewWorld(topo int, withProvider bool) *vpWorld {
 	if withProvider {
 		w.provider = &vpProvider{w: w, assigned: map[string]string{}}
 		p.cloudProvider = w.provider
+		// C10: an IP is unassigned at the provider before its FloatingIP object is deleted (freed) or re-keyed
+		w.store.Observe = func(kind string, old, new *v1alpha1.FloatingIP) {
+			if old == nil {
+				return
+			}
+			node, held := w.provider.assigned[old.Name]
+			if kind == "delete" {
+				verifAssert("C10/freed-while-assigned?", !held, "a FloatingIP was freed while the provider still has it assigned to "+node)
+			} else if new != nil && new.Spec.Key != old.Spec.Key {
+				verifAssert("C10/rekeyed-while-assigned?", !held, "a FloatingIP was handed to another owner while the provider still has it assigned to "+node)
+			}
+		}
 	}
 	w.plugin = p
 	return w
@@ -727,3 +739,22 @@ func (w *vpWorld) agree() bool {
 func (w *vpWorld) noLockHeld() bool { return !w.podLocks.anyHeld() && !w.dpLocks.anyHeld() }
 
 func vpHasPrefix(s, p string) bool { return strings.HasPrefix(s, p) }
+
+
+// invProvider: every IP of a live bound pod is assigned at the provider to that pod's node (C10).
+func (w *vpWorld) invProvider() bool {
+	if w.provider == nil {
+		return true
+	}
+	ok := true
+	for _, pod := range w.pods {
+		if !vpLive(pod) {
+			continue
+		}
+		for _, x := range vpBoundIPs(pod) {
+			node, held := w.provider.assigned[x]
+			ok = ok && held && node == pod.Spec.NodeName
+		}
+	}
+	return ok
+}
